@@ -8,6 +8,15 @@ Utf16Cp(c) == IF c < 65536 THEN Utf16Unit(c)
               ELSE LET v == c - 65536 IN Utf16Unit(55296 + (v \div 1024)) \o Utf16Unit(56320 + (v % 1024))
 Utf16LE(cps) == TCat([k \in 1..Len(cps) |-> Utf16Cp(cps[k])])
 Utf16Units(cps) == Len(Utf16LE(cps)) \div 2
+\* UTF-16LE bytes -> code points (unpaired surrogates are kept as they are)
+RECURSIVE Units(_)
+Units(b) == IF Len(b) < 2 THEN <<>> ELSE <<b[1] + 256 * b[2]>> \o Units(SubSeq(b, 3, Len(b)))
+RECURSIVE Pair(_)
+Pair(u) == IF u = <<>> THEN <<>>
+           ELSE IF Len(u) >= 2 /\ u[1] >= 55296 /\ u[1] < 56320 /\ u[2] >= 56320 /\ u[2] < 57344
+                THEN <<65536 + (u[1] - 55296) * 1024 + (u[2] - 56320)>> \o Pair(SubSeq(u, 3, Len(u)))
+           ELSE <<u[1]>> \o Pair(Tail(u))
+FromUtf16LE(b) == Pair(Units(b))
 Utf8Cp(c) == IF c < 128 THEN <<c>>
              ELSE IF c < 2048 THEN << 192 + (c \div 64), 128 + (c % 64) >>
              ELSE IF c < 65536 THEN << 224 + (c \div 4096), 128 + ((c \div 64) % 64), 128 + (c % 64) >>
